@@ -748,6 +748,30 @@ func sliceOp(fr *frame, instr *ssa.Slice, x, lo, hi, max value) value {
 		}
 		panic("slice bound")
 	}
+	// string[lo:hi] with symbolic lo and a constant length hi-lo: no forking, the
+	// bytes are table look-ups (strconv's small-number table, hex tables, ...)
+	if lt, ok := lo.(*Term); ok && max == nil {
+		if ht, ok := hi.(*Term); ok && lt.w == ht.w {
+			if d := mkBin(OpSub, ht, lt); d.isConst() && int64(d.val) >= 0 && int(d.val) <= l {
+				switch x.(type) {
+				case string, *symstr:
+					k := int(d.val)
+					_, signed, _ := intInfo(instr.Low.Type())
+					l64 := mkResize(lt, 64, signed)
+					inb := mkCmp(OpUle, l64, mkConst(uint64(l-k), 64))
+					if inb == tFalse || (inb != tTrue && !ex.decide(inb, "strslice-in-bounds")) {
+						panic(runtimePanic(fmt.Sprintf("slice bounds out of range [sym:sym+%d] with length %d", k, l)))
+					}
+					sb := strBytes(x)
+					out := make([]value, k)
+					for j := 0; j < k; j++ {
+						out[j] = loadSym(types.Typ[types.Uint8], &symptr{base: sb[j : l-k+j+1], idx: l64})
+					}
+					return mkStr(out)
+				}
+			}
+		}
+	}
 	iLo := bound(lo, 0, instr.Low)
 	iHi := bound(hi, l, instr.High)
 	iMax := bound(max, c, instr.Max)
